@@ -25,6 +25,7 @@ CONSTANTS
   Horizon,     \* largest date
   NFlags, NLocks, NQueues, NChans,
   NRes, MaxPools, ResInit, MaxLevel,   \* resource supplies 1..NRes with initial level ResInit; pools incl. shares
+  NT, ResInitB, AmtMax,                \* resource types per supply (1: `a`; 2: `a` and `b`), initial level of `b`, largest amount per type
   TickSel,     \* name of the list of tickers the client may iterate (see TickTable)
   CondSel,     \* name of the set of connective expressions the client may await (see CondTable)
   Menu         \* set of client operations enabled in this configuration
@@ -116,8 +117,20 @@ NCh(c)    == <<"ch", c>>          \* Channel._notification
 
 \* the six comparisons of a tracked value (usim/_basics/tracked.py)
 Rels == {"ge", "le", "gt", "lt", "eq", "ne"}
-RelHolds(x, rel, v) == CASE rel = "ge" -> x >= v [] rel = "le" -> x <= v [] rel = "gt" -> x > v
-                         [] rel = "lt" -> x < v [] rel = "eq" -> x = v [] OTHER -> x # v
+\* Levels and amounts are vectors <<a, b>> over the resource types 1..NT (ResourceLevels, _resource_level.py):
+\* arithmetic is elementwise; >=, <=, >, < hold iff they hold for EVERY type, == iff all are equal, != is its negation.
+\* With NT = 1 the second component is 0 throughout and takes no part in comparisons.
+Types == 1..NT
+Vec(x, y) == <<x, y>>
+Zero == <<0, 0>>
+VAdd(x, y) == <<x[1] + y[1], x[2] + y[2]>>
+VSub(x, y) == <<x[1] - y[1], x[2] - y[2]>>
+VGe(x, y) == \A i \in Types : x[i] >= y[i]
+VNeg(x) == \E i \in Types : x[i] < 0
+Amts == IF NT = 1 THEN {<<x, 0>> : x \in 0..AmtMax} ELSE {<<x, y>> : x, y \in 0..AmtMax}
+RelHolds(x, rel, v) == CASE rel = "ge" -> \A i \in Types : x[i] >= v[i] [] rel = "le" -> \A i \in Types : x[i] <= v[i]
+                         [] rel = "gt" -> \A i \in Types : x[i] > v[i] [] rel = "lt" -> \A i \in Types : x[i] < v[i]
+                         [] rel = "eq" -> \A i \in Types : x[i] = v[i] [] OTHER -> \E i \in Types : x[i] # v[i]
 
 
 \* current truth value of a condition-notification
@@ -153,7 +166,7 @@ Init ==
   /\ lock = [l \in AllLocks |-> [owner |-> 0, depth |-> 0]]
   /\ obj = [q |-> [i \in Queues |-> [buf |-> <<>>, closed |-> FALSE]],
             ch |-> [i \in Chans |-> [closed |-> FALSE, bufs |-> <<>>]],
-            pool |-> [p \in 1..MaxPools |-> [level |-> IF p <= NRes THEN ResInit ELSE 0, parent |-> 0, debit |-> 0,
+            pool |-> [p \in 1..MaxPools |-> [level |-> IF p <= NRes THEN Vec(ResInit, ResInitB) ELSE Zero, parent |-> 0, debit |-> Zero,
                                               owner |-> 0, open |-> FALSE]],
             lst |-> [p \in 1..MaxPools |-> <<>>]]
   /\ cnt = [act |-> NRoots, sc |-> 0, exc |-> 0, item |-> 0, cons |-> 0, pool |-> NRes]
@@ -1048,6 +1061,19 @@ CondOp ==
              /\ ev' = <<B([op |-> "open", kind |-> "until_c", c |-> c, s |-> s, catch |-> TRUE]),
                         [e |-> "r", a |-> A, op |-> "open", t |-> now]>>
         /\ run' = run
+     \/ /\ In("until_conn") /\ cnt.sc < MaxScopes
+        /\ \E c \in Conds :
+             \* `async with until(a & b)` / `until(a | b)`.  NAMED DEVIATION "connective_never_triggers" (known finding
+             \* KF-C07-until-connective): InterruptScope subscribes through Condition.__subscribe__, which interrupts at
+             \* once if the connective holds on entry and otherwise parks the interrupt in the connective's own waiting
+             \* list - which nothing ever triggers (a connective only watches its children while it is AWAITED)
+             LET s == cnt.sc + 1 IN
+             /\ OpenScope(ac, "until", c, TRUE)
+             /\ IF Eval(c) THEN pending' = Append(pending, Actv(A, Ci(s))) /\ subs' = subs
+                ELSE subs' = Append(subs, [n |-> <<"parked", s>>, w |-> A, sig |-> Ci(s)]) /\ pending' = pending
+             /\ ev' = <<B([op |-> "open", kind |-> "until_c", c |-> c, s |-> s, catch |-> TRUE]),
+                        [e |-> "r", a |-> A, op |-> "open", t |-> now]>>
+        /\ run' = run /\ future' = future
   /\ UNCHANGED <<now, task, flag, lock, obj, fault>>
 
 ----------------------------------------------------------------------------
@@ -1075,11 +1101,11 @@ DeliverHelper ==
   /\ Idle /\ pending # <<>> /\ fault = "" /\ Head(pending).tgt = 0 /\ Head(pending).sig[1] \in {"hlp", "nop"}
   /\ LET h == Head(pending).sig IN
      IF h[1] = "hlp"
-     THEN LET p == h[2]  v == IF h[4] THEN obj.pool[p].level + h[3] ELSE obj.pool[p].level - h[3]
+     THEN LET p == h[2]  v == IF h[4] THEN VAdd(obj.pool[p].level, h[3]) ELSE VSub(obj.pool[p].level, h[3])
               r == TSet(obj, p, v, subs, Tail(pending)) IN
           /\ obj' = r[1] /\ subs' = r[2]
           /\ pending' = Append(r[3], Actv(0, <<"nop">>))          \* its own `await postpone()`
-          /\ fault' = IF v < 0 THEN "negative_level" ELSE fault
+          /\ fault' = IF VNeg(v) THEN "negative_level" ELSE fault
      ELSE /\ pending' = Tail(pending) /\ UNCHANGED <<obj, subs, fault>>
   /\ ev' = <<>>
   /\ UNCHANGED <<now, future, act, run, task, sc, flag, lock, cnt>>
@@ -1100,12 +1126,12 @@ BorrowStep ==
                     THEN E([e |-> "u", a |-> A, op |-> "body", blk |-> "res", id |-> p, t |-> now, exc |-> fr.x]) ELSE <<>>
           /\ CASE fr.ph = "wait" ->
                  \* available >= amt now: remove from the supply, postpone
-                 LET r == TSet(obj, p, obj.pool[p].level - amt, subs, pending) IN
+                 LET r == TSet(obj, p, VSub(obj.pool[p].level, amt), subs, pending) IN
                  /\ obj' = r[1] /\ subs' = r[2]
                  /\ DoPostpone(SetTop(act, A, [fr EXCEPT !.ph = "rm"]), r[3])
-                 /\ fault' = IF obj.pool[p].level < amt THEN "negative_level" ELSE fault
+                 /\ fault' = IF ~VGe(obj.pool[p].level, amt) THEN "negative_level" ELSE fault
             [] fr.ph = "rm" ->
-                 LET r == TSet(obj, sh, obj.pool[sh].level + amt, subs, pending) IN
+                 LET r == TSet(obj, sh, VAdd(obj.pool[sh].level, amt), subs, pending) IN
                  /\ obj' = r[1] /\ subs' = r[2]
                  /\ DoPostpone(SetTop(act, A, [fr EXCEPT !.ph = "ins"]), r[3])
                  /\ fault' = fault
@@ -1113,7 +1139,7 @@ BorrowStep ==
                  /\ act' = SetTop(act, A, [fr EXCEPT !.ph = "body"])
                  /\ UNCHANGED <<run, obj, subs, pending, fault>>
             [] fr.ph = "x1" ->
-                 LET r == TSet(obj, p, obj.pool[p].level + amt, subs, pending) IN
+                 LET r == TSet(obj, p, VAdd(obj.pool[p].level, amt), subs, pending) IN
                  /\ obj' = r[1] /\ subs' = r[2]
                  /\ DoPostpone(SetTop(act, A, [fr EXCEPT !.ph = "x2"]), r[3])
                  /\ fault' = fault
@@ -1126,7 +1152,7 @@ BorrowStep ==
 
 \* leave the body of a borrow block (normally: x = NoSig, or with exception x passing through)
 StartGiveBack(ac, fr, x) ==
-  LET r == TSet(obj, fr.sh, obj.pool[fr.sh].level - fr.amt, subs, pending) IN
+  LET r == TSet(obj, fr.sh, VSub(obj.pool[fr.sh].level, fr.amt), subs, pending) IN
   /\ obj' = r[1] /\ subs' = r[2]
   /\ DoPostpone(SetTop(ac, A, [fr EXCEPT !.ph = "x1", !.x = x]), r[3])
 
@@ -1152,19 +1178,19 @@ ResOp ==
         /\ ev' = E(B([op |-> "leave", implicit |-> TRUE, blk |-> "res", id |-> Top(A).p]))
         /\ UNCHANGED <<cnt>>
      \/ /\ act[A].ops > 0 /\ In("borrow")
-        /\ \E p \in 1..cnt.pool : \E amt \in 0..2 : \E claim \in BOOLEAN :
+        /\ \E p \in 1..cnt.pool : \E amt \in Amts : \E claim \in BOOLEAN :
              /\ (claim => In("claim"))
-             /\ (p > NRes => (In("nested") /\ amt <= obj.pool[p].debit
+             /\ (p > NRes => (In("nested") /\ VGe(obj.pool[p].debit, amt)
                               /\ \E i \in 1..Len(Stack(A)) : Stack(A)[i].k = "borrow" /\ Stack(A)[i].sh = p /\ Stack(A)[i].ph = "body"))
              /\ cnt.pool < MaxPools
              /\ LET sh == cnt.pool + 1
                     opn == IF claim THEN "claim" ELSE "borrow"
-                    o1 == [obj EXCEPT !.pool[sh] = [level |-> 0, parent |-> p, debit |-> amt, owner |-> A, open |-> TRUE]]
+                    o1 == [obj EXCEPT !.pool[sh] = [level |-> Zero, parent |-> p, debit |-> amt, owner |-> A, open |-> TRUE]]
                     ac1 == Push([ac EXCEPT ![A].cur = [op |-> opn, p |-> p]], A,
                                 [k |-> "borrow", p |-> p, sh |-> sh, amt |-> amt, ph |-> "wait", x |-> NoSig]) IN
                 /\ cnt' = [cnt EXCEPT !.pool = sh]
-                /\ ev' = E(B([op |-> opn, p |-> p, amt |-> amt, sh |-> sh]))
-                /\ IF obj.pool[p].level >= amt
+                /\ ev' = E(B([op |-> opn, p |-> p, amt |-> amt[1], amtb |-> amt[2], sh |-> sh]))
+                /\ IF VGe(obj.pool[p].level, amt)
                    THEN \* resume immediately (BorrowStep "wait" does the removal)
                         /\ obj' = o1 /\ act' = ac1 /\ UNCHANGED <<run, subs, pending>>
                    ELSE IF claim
@@ -1179,17 +1205,23 @@ ResOp ==
         /\ ev' = E(B([op |-> "leave", implicit |-> FALSE, blk |-> "res", id |-> Top(A).p]))
         /\ UNCHANGED <<cnt>>
      \/ /\ act[A].ops > 0 /\ In("rchange")
-        /\ \E p \in 1..NRes : \E kind \in {"inc", "dec", "rset"} : \E amt \in 0..2 :
-             /\ (kind = "dec" => amt <= obj.pool[p].level)
-             /\ LET v == IF kind = "inc" THEN obj.pool[p].level + amt ELSE IF kind = "dec" THEN obj.pool[p].level - amt ELSE amt
+        /\ \E p \in 1..NRes : \E kind \in {"inc", "dec", "rset"} : \E amt \in Amts : \E mask \in 1..(IF NT = 1 THEN 1 ELSE 3) :
+             \* `set(**amounts)` replaces only the types it names (mask 1: a, 2: b, 3: both); increase / decrease take
+             \* missing types as zero
+             /\ (kind # "rset" => mask = (IF NT = 1 THEN 1 ELSE 3))
+             /\ (kind = "rset" /\ mask = 1 => amt[2] = 0) /\ (kind = "rset" /\ mask = 2 => amt[1] = 0)
+             /\ (kind = "dec" => VGe(obj.pool[p].level, amt))
+             /\ LET lv == obj.pool[p].level
+                    v == IF kind = "inc" THEN VAdd(lv, amt) ELSE IF kind = "dec" THEN VSub(lv, amt)
+                         ELSE <<IF mask \in {1, 3} THEN amt[1] ELSE lv[1], IF mask \in {2, 3} THEN amt[2] ELSE lv[2]>>
                     r == TSet(obj, p, v, subs, pending) IN
-                /\ v <= MaxLevel
+                /\ v[1] <= MaxLevel /\ v[2] <= MaxLevel
                 /\ obj' = r[1] /\ subs' = r[2]
                 /\ DoPostpone([ac EXCEPT ![A].cur = [op |-> kind, p |-> p]], r[3])
-                /\ ev' = E(B([op |-> kind, p |-> p, amt |-> amt]))
+                /\ ev' = E(B([op |-> kind, p |-> p, amt |-> amt[1], amtb |-> amt[2], mask |-> mask]))
         /\ UNCHANGED <<cnt>>
      \/ /\ act[A].ops > 0 /\ In("await_lvl")
-        /\ \E p \in 1..NRes : \E v \in 0..2 : \E rel \in (IF In("lvl_rels") THEN Rels ELSE {"ge"}) :
+        /\ \E p \in 1..NRes : \E v \in Amts : \E rel \in (IF In("lvl_rels") THEN Rels ELSE {"ge"}) :
            \E shared \in (IF In("lvl_shared") THEN BOOLEAN ELSE {FALSE}) :
              \* `await (resources <rel> {a: v})`: a fresh comparison instance listens to the level for as long as it is
              \* awaited; or (shared) ONE comparison object per (p, rel, v) that the client keeps and all its waiters share
@@ -1197,14 +1229,14 @@ ResOp ==
                  n == IF shared THEN CmpR(p, v, 0, 0, rel) ELSE CmpR(p, v, A, Len(ac1[A].stack) + 1, rel)
                  o1 == IF \E i \in 1..Len(obj.lst[p]) : obj.lst[p][i] = n THEN obj ELSE [obj EXCEPT !.lst[p] = Append(@, n)] IN
              /\ obj' = o1
-             /\ ev' = E(B([op |-> "await_lvl", p |-> p, v |-> v, rel |-> rel, shared |-> shared]))
+             /\ ev' = E(B([op |-> "await_lvl", p |-> p, v |-> v[1], vb |-> v[2], rel |-> rel, shared |-> shared, nt |-> NT]))
              /\ IF RelHolds(obj.pool[p].level, rel, v)
                 THEN DoPostpone(Push(ac1, A, [k |-> "cwait", n |-> n]), pending) /\ subs' = subs
                 ELSE DoSubscribe(Push(ac1, A, [k |-> "cwait", n |-> n]), subs, n) /\ pending' = pending
         /\ UNCHANGED <<cnt>>
      \/ /\ act[A].ops > 0 /\ In("levels")
         /\ \E p \in 1..NRes :
-             /\ ev' = E([e |-> "p", a |-> A, t |-> now, op |-> "levels", p |-> p, v |-> obj.pool[p].level])
+             /\ ev' = E([e |-> "p", a |-> A, t |-> now, op |-> "levels", p |-> p, v |-> obj.pool[p].level[1], vb |-> obj.pool[p].level[2]])
              /\ act' = ac
         /\ UNCHANGED <<obj, subs, pending, run, cnt>>
   /\ UNCHANGED <<now, future, task, sc, flag, lock, fault>>
